@@ -496,7 +496,7 @@ impl Property for C21 {
         json!({"grid": "2 x 5 x 3 x 4 x 2 = 240 interpreter versions x 3 data-format versions sampled per history"})
     }
     fn cases(&self, tier: Tier) -> u32 {
-        tier.pick(400, 6000)
+        tier.pick(2000, 20_000)
     }
     fn strategy(&self, tier: Tier) -> BoxedStrategy<HistCase> {
         hist_strategy(1, tier.pick(4, 6), tier.pick(16, 40), 20, false)
@@ -608,7 +608,7 @@ impl Property for C22 {
         json!({"configs_per_run": 30 + 8, "runs_per_history": tier.pick(2, 4)})
     }
     fn cases(&self, tier: Tier) -> u32 {
-        tier.pick(1500, 40_000)
+        tier.pick(8000, 100_000)
     }
     fn strategy(&self, tier: Tier) -> BoxedStrategy<HistCase> {
         prop_oneof![hist_strategy(1, tier.pick(4, 6), tier.pick(20, 40), 30, false), hist_strategy(2, tier.pick(4, 6), tier.pick(20, 40), 30, false)].boxed()
